@@ -80,7 +80,7 @@ MustRun(t) ==
        \/ gh.cg[t] # sn.out                           \* its file was removed (edits make it the user's)
        \/ \E d \in sn.deps :
              \/ d.n = ALWAYS
-             \/ d.m = "c" /\ fs[d.n].ex
+             \/ d.m = "c" /\ Exists(fs, d.n)
              \/ d.m = "m" /\ d.n # ALWAYS /\ (gh.cg[d.n] # d.g \/ WillChange(d.n))
 
 \* no over-build: a script is started only for a target the reference says must run
